@@ -12,6 +12,7 @@ PROPS = {
     'C07': 'rsym.props.c07',
     'C08': 'rsym.props.c08',
     'C09': 'rsym.props.c09',
+    'C10': 'rsym.props.c10',
     'C11': 'rsym.props.c11',
     'C12': 'rsym.props.c12',
     'C13': 'rsym.props.c13',
